@@ -3,7 +3,7 @@
    which is run on binary64 against the library in every check. *)
 From Coq Require Import ZArith Floats.
 From mathcomp Require Import all_ssreflect all_algebra.
-From LS Require Import NumOps RcfOps F64Ops Kernels Preprocess KernelsSpec PreprocessSpec PreprocessSpec2 Gen_Params.
+From LS Require Import NumOps RcfOps F64Ops Kernels Preprocess KernelsSpec PreprocessSpec PreprocessSpec2 MinMaxSpec Gen_Params.
 Set Implicit Arguments. Unset Strict Implicit. Unset Printing Implicit Defensive.
 Import Order.TTheory GRing.Theory Num.Theory.
 Local Open Scope ring_scope.
@@ -74,6 +74,13 @@ Theorem C10_pareto_sdev (c : vec) a : cleanv c -> (0 < size c)%N -> 0 < col_sdev
   cleanv [seq (x - a) / Num.sqrt (col_sdev c) | x <- c] ->
   col_sdev [seq (x - a) / Num.sqrt (col_sdev c) | x <- c] = Num.sqrt (col_sdev c).
 Proof. exact: pareto_sdev. Qed.
+(* range scaling: the executable column minimum / maximum are observed cells bounding every observed cell, wherever the
+   column lies (also entirely above the missing-value code, or entirely negative); so the stored range is the largest
+   difference of two observed cells *)
+Theorem C10_range_statistic (c : seq R) : obs c != [::] ->
+  let mm := col_minmax c in
+  [/\ mm.1 \in obs c, mm.2 \in obs c & all (fun y => (mm.1 <= y <= mm.2)%R) (obs c)].
+Proof. exact: col_minmax_spec. Qed.
 End Exact.
 
 (* the literals of the model are the constants the C source uses NOW (Gen_Params.v is
@@ -95,6 +102,7 @@ Proof. by vm_compute. Qed.
 
 Print Assumptions C10_zero_spread_is_zero.
 Print Assumptions C10_stored_are_statistics.
+Print Assumptions C10_range_statistic.
 Print Assumptions C10_apply_affine.
 Print Assumptions C10_tensor_blockwise.
 Print Assumptions C10_missing_independent_var.
